@@ -347,7 +347,7 @@ def rule_frame(c: Ctx) -> RuleResult:
             if _is_ctor_scan(c, f):
                 r.add(key, c.where(f, n), f.short, U(n)[:80], "exempt", "constructor")
                 continue
-            restore = _is_restore(f, val)
+            restore = _is_restore(f, val) or _is_loop_restore(c, f, n, val)
             same_cell = any(isinstance(x, ast.Subscript) and U(x) == U(tgt) for x in ast.walk(val))
             ok = aug and isinstance(n.op, ast.Add) or restore or same_cell
             r.add(key, c.where(f, n), f.short, U(n)[:90], "discharged" if ok else "violation",
@@ -376,6 +376,28 @@ def _is_ctor_scan(c: Ctx, f: Func) -> bool:
         return False
     sc = c.tf.scope(f)
     return not any(sc.env.get(a.arg) == "StateBlock" for a in f.node.args.posonlyargs + f.node.args.args)
+
+
+def _is_loop_restore(c: Ctx, f: Func, stmt: ast.AST, val: ast.AST) -> bool:
+    """The value is a component of the target of a `for` over the rule's save structure (the LOCK model)."""
+    if not isinstance(val, (ast.Name, ast.Subscript)):
+        return False
+    loop = f.module.parents.get(stmt)
+    while loop is not None and not isinstance(loop, ast.For):
+        loop = f.module.parents.get(loop)
+        if loop is f.node:
+            return False
+    if loop is None:
+        return False
+    from .ctx_rules import SaveModel
+    st = f.node.args.args[0].arg if f.node.args.args else "state"
+    m = SaveModel(c, f, st)
+    if not m.lists:
+        return False
+    names = {x.id for x in ast.walk(loop.iter) if isinstance(x, ast.Name)}
+    tnames = {x.id for x in ast.walk(loop.target) if isinstance(x, ast.Name)}
+    base = val.id if isinstance(val, ast.Name) else (val.value.id if isinstance(val.value, ast.Name) else None)
+    return bool(names & set(m.lists)) and base in tnames
 
 
 def _is_restore(f: Func, val: ast.AST) -> bool:
